@@ -37,6 +37,10 @@ def encode(ins: Dict[str, Any]) -> List[int]:
         return [0x09, ins["v"] & 0xFF]            # MV IL, n
     if k == "IDLE":
         return [0x00]
+    if k == "STROBE":
+        return [0xCC, 0xF0, ins["v"] & 0xFF]      # MV (KOL), n : select keyboard columns
+    if k == "READKIL":
+        return [0x80, 0xF2]                       # MV A, (KIL)
     raise ValueError(k)
 
 
